@@ -2296,6 +2296,9 @@ func (wd *world) opSplit(op Op, step int) error {
 			// the wallet
 			if msg := callErr.Error(); strings.Contains(msg, "failed to broadcast split transaction") {
 				wd.cs.Class("split=error:own-transaction-refused-by-the-pool")
+				if os.Getenv("VERIF_SPLITDIAG") != "" {
+					fmt.Printf("SPLITDIAG lagging=%v %s\n", wd.lagging(), msg)
+				}
 				if strings.Contains(msg, "spend policy") || strings.Contains(msg, "signature") {
 					return fmt.Errorf("%s: the wallet's own split transaction was refused for its signature: %v", where, callErr)
 				}
